@@ -140,7 +140,7 @@ Print Assumptions C05_refuted_F05c_all.
 Theorem C05_wildcard_primary : forall reg o w st ct,
   cprocessed o = None -> find_status st (cothers o) = None ->
   wildcard_resp o = Some w -> is_strategy_resp o w = true -> 200 <= st < 300 ->
-  handle reg o st ct = if is_none_ret (resolve o) then PNone else strategy_path reg (resolve o) ct.
+  handle reg o st ct = if is_none_ret (resolve o) then PNone else strategy_path reg (nd_of o) (resolve o) ct.
 Proof. exact handle_wildcard_primary. Qed.
 Print Assumptions C05_wildcard_primary.
 
@@ -152,6 +152,11 @@ Theorem C05_refuted_F05c : guard_bits d_F05c = [true; false; true; true]
   /\ the_path d_F05c = PCast /\ the_want d_F05c = WText /\ C05_holds d_F05c = false.
 Proof. exact refuted_F05c. Qed.
 Print Assumptions C05_refuted_F05c.
+(* F05f fixed for application/x-ndjson (regression on the old witness); json-seq / multipart remain open *)
+Theorem C05_fixed_F05f_ndjson : c05_guard d_F05f_ndjson = true /\ the_path d_F05f_ndjson = PStreamNdjson true
+  /\ the_want d_F05f_ndjson = WStreamLines /\ the_imported d_F05f_ndjson = true /\ C05_holds d_F05f_ndjson = true.
+Proof. exact fixed_F05f_ndjson. Qed.
+Print Assumptions C05_fixed_F05f_ndjson.
 Theorem C05_refuted_F05f : guard_bits d_F05f = [true; true; false; true]
   /\ the_path d_F05f = PStreamSse /\ the_want d_F05f = WStreamItems /\ C05_holds d_F05f = false.
 Proof. exact refuted_F05f. Qed.
